@@ -76,6 +76,11 @@ class ZONEINFO(TZProvider):
                 for attr in list(sub.keys()):
                     if attr.lower().startswith("x-"):
                         sub.pop(attr)
+                # dateutil rejects parameters of TZNAME, e.g. TZNAME;LANGUAGE=en:CET
+                names = sub.get("TZNAME", [])
+                for name in names if isinstance(names, list) else [names]:
+                    if hasattr(name, "params"):
+                        name.params.clear()
             return self._create_timezone(tz)
 
     def _create_timezone(self, tz: cal.Timezone) -> tzinfo:
